@@ -24,7 +24,7 @@ func init() { core.Register(c11{}) }
 func (c11) ID() string    { return "C11" }
 func (c11) Level() string { return "exploration" }
 func (c11) Rule() string {
-	return "metamorphic + frame check on run-time built struct types (reflect.StructOf). A seeded multiset of leaves (wire by name / by-type slice, func, value literal / placeholder / list, prop with and without default, prefix scalar / list, an anonymous struct WITH a prefix tag bound as a whole, logger, a user tag 'mytag' with arguments) plus decoys (exported untagged, foreign-tagged, unexported fields carrying recognised tags, a named (non-embedded) struct field containing tagged leaves, an embedded nil pointer), all decoys pre-filled with sentinels. The flat struct and 3 (quick) / 5 (thorough) random re-arrangements of the same leaves into anonymous untagged by-value embedded structs (depth <= 5) are each started on the real container with the same providers and configuration. Oracle: every leaf has the same value in every arrangement (component leaves compared by provider identity, config leaves by value) and equals the generator's expectation; a recording user tag processor received exactly the leaves carrying its tag with the tag's value and arguments; every sentinel is intact, leaves inside the named struct field are untouched, the embedded pointer stays nil. non-trivial = arrangement of depth >= 2 with >= 1 decoy below the top level; distinct = arrangement shape + leaf multiset; plus compile-time fixtures: equally named fields in sibling embedded structs, shadowed promoted fields, a non-nil embedded pointer that must not be entered; fixtures: embedded mix-in implementing ConfigurationProperties, logger:\"\" prefix at different embedding depths; an early subset-answering user post-processor; fixture with embedded structs carrying a user-defined / a foreign tag; fixtures: one field one binding (tag next to extract handler), logger with embed on a direct field; leaves the user processor claims by field type through its extract handler (no literal tag); compile-time fixtures with blank fields and with one type embedded through two paths; dash values; a user processor with the component property type on leaves of kinds no component fits; tagged zero-size marker fields; a tag processor that learns its tag in its factory hook"
+	return "metamorphic + frame check on run-time built struct types (reflect.StructOf). A seeded multiset of leaves (wire by name / by-type slice, func, value literal / placeholder / list, prop with and without default, prefix scalar / list, an anonymous struct WITH a prefix tag bound as a whole, logger, a user tag 'mytag' with arguments) plus decoys (exported untagged, foreign-tagged, unexported fields carrying recognised tags, a named (non-embedded) struct field containing tagged leaves, an embedded nil pointer), all decoys pre-filled with sentinels. The flat struct and 3 (quick) / 5 (thorough) random re-arrangements of the same leaves into anonymous untagged by-value embedded structs (depth <= 5) are each started on the real container with the same providers and configuration. Oracle: every leaf has the same value in every arrangement (component leaves compared by provider identity, config leaves by value) and equals the generator's expectation; a recording user tag processor received exactly the leaves carrying its tag with the tag's value and arguments; every sentinel is intact, leaves inside the named struct field are untouched, the embedded pointer stays nil. non-trivial = arrangement of depth >= 2 with >= 1 decoy below the top level; distinct = arrangement shape + leaf multiset; plus compile-time fixtures: equally named fields in sibling embedded structs, shadowed promoted fields, a non-nil embedded pointer that must not be entered; fixtures: embedded mix-in implementing ConfigurationProperties, logger:\"\" prefix at different embedding depths; an early subset-answering user post-processor; fixture with embedded structs carrying a user-defined / a foreign tag; fixtures: one field one binding (tag next to extract handler), logger with embed on a direct field; leaves the user processor claims by field type through its extract handler (no literal tag); compile-time fixtures with blank fields and with one type embedded through two paths; dash values; a user processor with the component property type on leaves of kinds no component fits; tagged zero-size marker fields; a tag processor that learns its tag in its factory hook; a handler that names its finds differently from the processor's tag; arguments expected per the independent reference parser, incl. bracketed groups with blanks"
 }
 func (c11) Assumptions() []string {
 	return []string{
